@@ -11,6 +11,7 @@
 import RbModel.Lemmas.BufZipper
 import RbModel.Lemmas.GsubSingleSpec
 import RbModel.Lemmas.GsubAlternateSpec
+import RbModel.Lemmas.GsubMultiSpec
 
 namespace RbModel.Buf
 
@@ -359,6 +360,96 @@ def exAltCtx : Ctx := { font := exFont, lookupMask := 48, buf := exAltBuf }
 example : exAltLookup.subtables.all Subtable.isAlternate = true := by decide
 example : (match applyString exAltCtx exAltLookup 3 with
     | .ok c' => (c'.buf.info.take c'.buf.len).map (·.gid) == [8, 7, 1]
+    | .error _ => false) = true := by decide
+
+end RbModel.Gsub
+
+/-! ## Part 4: multiple substitution (GSUB type 2) — the string grows
+
+Same refinement for lookups all of whose subtables are multiple substitutions.  Unlike Parts 2 and 3 the pass is not in
+place: `Sequence::apply` puts out one copy of the current glyph per substitute (`output_glyph`, after `make_room_for`
+has separated the out-buffer from the in-buffer), then skips the current glyph; `sync` swaps the two buffers at the end.
+The proof invariant is over the pair (out-part `out[0..out_len)`, in-part `info[idx..len)`), Lemmas/GsubMulti*.lean.
+
+Guards of the real code on this path, and the hypotheses they become:
+* `make_room_for` → `ensure(out_len + n)` refuses (buffer marked unsuccessful, result discarded by `sync`) iff
+  `out_len + n ≥ len` and `out_len + n > max_len`.  `out_len + n` never exceeds the length of the final string, so
+  `hbudget` (final string ≤ `max_len`) is the guard; for a growing pass it is also necessary (the final `sync` asks for
+  exactly that size).  `max_ops` is not consulted on this path (it is charged by `recurse` / `apply_lookup` only).
+* `hout`: the `pos` Vec (which holds the separate out-buffer) is as long as the `info` Vec — an invariant of buffer.rs
+  (`ensure` resizes both); Parts 2/3 never touch `pos` and do not need it.
+* `hseq`: no empty sequence.  OpenType forbids them ("glyphCount should always be greater than 0"); the crate then
+  deletes the glyph and merges its cluster into a neighbour (`delete_glyph`), which the specification — it just removes
+  the glyph — does not describe: see `C06_multiple_delete_partial` below for what holds there. -/
+namespace RbModel.Gsub
+open RbModel RbModel.Buf RbModel.Spec.Subst
+
+theorem toG_eq_projG : toG = projG := rfl
+
+/-- **C06, multiple substitution**: for every font, every forward lookup made of multiple-substitution subtables with
+    non-empty sequences, every lookup mask and every well-formed buffer whose final string fits the length budget, the
+    streaming interpreter succeeds and yields exactly the glyph string (ids, clusters, masks) of the OpenType model. -/
+theorem C06_multiple_subst_refines_spec (l : Lookup) (hall : l.subtables.all Subtable.isMultiple = true)
+    (hseq : SeqsNonempty l.subtables)
+    (c : Ctx) (fuel level : Nat)
+    (hsu : c.buf.successful = true) (hlen : c.buf.len ≤ c.buf.info.length)
+    (hout : c.buf.out.length = c.buf.info.length) (hf : c.buf.len ≤ fuel)
+    (hgid : ∀ x ∈ c.buf.info.take c.buf.len, x.gid < 65536)
+    (hsync : ∀ x ∈ c.buf.info.take c.buf.len,
+      checkGlyphProperty c.font x l.props = !ignored c.font l.props (toG x))
+    (hbudget : (applyLookupFwd c.font level l c.lookupMask fuel ((c.buf.info.take c.buf.len).map toG) 0).length
+      ≤ c.buf.maxLen) :
+    ∃ c', applyString c l fuel = .ok c' ∧ c'.buf.successful = true ∧ c'.buf.len ≤ c'.buf.info.length ∧
+      (c'.buf.info.take c'.buf.len).map toG
+        = applyLookupFwd c.font level l c.lookupMask fuel ((c.buf.info.take c.buf.len).map toG) 0 := by
+  -- the specification side in closed form
+  have hspec : applyLookupFwd c.font level l c.lookupMask fuel ((c.buf.info.take c.buf.len).map toG) 0
+      = (c.buf.info.take c.buf.len).flatMap
+          (stepL c.font c.lookupMask l.props (fun x => multiSeq? l.subtables (x.gid % 65536))) := by
+    rw [applyLookupFwd_list c.font level l c.lookupMask (fun g => multiSeq? l.subtables g.gid) (fun _ => True)
+          (fun gs i g hg _ => firstSubtable_multiple c.font level l.props c.lookupMask gs i g hg l.subtables hall)
+          fuel _ 0 (fun _ _ _ _ => trivial) (by simp; omega) (Nat.zero_le _)]
+    simp only [List.take_zero, List.nil_append, List.drop_zero, List.flatMap_map]
+    symm
+    apply flatMap_congr_mem
+    intro x hx
+    rw [toG_eq_projG]
+    apply stepL_eq_specStepL
+    · show multiSeq? l.subtables (x.gid % 65536) = multiSeq? l.subtables x.gid
+      rw [Nat.mod_eq_of_lt (hgid x hx)]
+    · exact hsync x hx
+  rw [hspec] at hbudget ⊢
+  obtain ⟨c', hrun, hsu', hle', hres⟩ :=
+    applyString_list l (fun x => multiSeq? l.subtables (x.gid % 65536)) (multiple_not_reverse l hall) c false
+      (actsAsL_multiple l hall c.lookupMask) (fun x ss h => multiSeq?_ne_nil l.subtables hseq _ ss h)
+      C06_gen_buffer_variants.2 (fun h => by cases h) fuel hsu hlen hout hf hbudget
+  exact ⟨c', hrun, hsu', hle', by rw [toG_eq_projG]; exact hres⟩
+
+/-! non-vacuity: "ignore marks" lookup; base 1 → 11 2 11 (three glyphs, the middle one a mark), glyph 3 → 5; the mark in the
+    text is skipped, the marks put in by the substitution are not visited again; four glyphs become eight -/
+def exMultiLookup : Lookup := { props := 0x0008, subtables := [.multiple [1, 3] [[11, 2, 11], [5]]] }
+def exMultiCtx : Ctx :=
+  { font := exFont, lookupMask := 1,
+    buf := { info := [⟨1,1,0,GP.BASE_GLYPH,0⟩, ⟨2,1,1,GP.MARK,0⟩, ⟨1,1,2,GP.BASE_GLYPH,0⟩, ⟨3,1,3,0,0⟩],
+             out := [{}, {}, {}, {}], len := 4 } }
+
+example : exMultiLookup.subtables.all Subtable.isMultiple = true := by decide
+example : SeqsNonempty exMultiLookup.subtables := by
+  intro st hst cov seqs he ss hss
+  simp [exMultiLookup] at hst
+  subst hst
+  cases he
+  simp at hss
+  rcases hss with h | h <;> subst h <;> simp
+example : exMultiCtx.buf.out.length = exMultiCtx.buf.info.length := by decide
+example : ∀ x ∈ exMultiCtx.buf.info.take exMultiCtx.buf.len, x.gid < 65536 := by decide
+example : ∀ x ∈ exMultiCtx.buf.info.take exMultiCtx.buf.len,
+    checkGlyphProperty exMultiCtx.font x exMultiLookup.props = !ignored exMultiCtx.font exMultiLookup.props (toG x) := by decide
+example : (applyLookupFwd exMultiCtx.font 0 exMultiLookup exMultiCtx.lookupMask 4
+    ((exMultiCtx.buf.info.take exMultiCtx.buf.len).map toG) 0).length ≤ exMultiCtx.buf.maxLen := by decide
+example : (match applyString exMultiCtx exMultiLookup 4 with
+    | .ok c' => (c'.buf.info.take c'.buf.len).map (fun x => (x.gid, x.cluster)) ==
+                  [(11, 0), (2, 0), (11, 0), (2, 1), (11, 2), (2, 2), (11, 2), (5, 3)]
     | .error _ => false) = true := by decide
 
 end RbModel.Gsub
